@@ -122,5 +122,21 @@ def obligations(tier):
         r = c07.init_return(cfgs[0], n_iter)
         r.name = r.name.replace("C07/", "C18/")
         obs.append(r)
+    # "histories up to and including the failing iteration are those of the reference loop": the full step (loss and
+    # tracked-parameter histories included, NaN entries included) with tracked parameters — the C07 step contract
+    for i in range(n_iters[0]):
+        o = c07.step(cfgs[3], n_iters[0], i)
+        o.name = o.name.replace("C07/_one_iteration/ensures.reference_step", "C18/_one_iteration/ensures.histories_are_the_reference_loop's")
+        obs.append(o)
+    # with a refining generator: refinement hands the parameters back untouched (a NaN stays a NaN for the stop test)
+    from contracts import c16
+    for kind in ("ODE", "statio", "nonstatio"):
+        o = c16.ob_trigger(kind)
+        o.name = o.name.replace("C16/", "C18/requires.refinement_returns_parameters_unchanged/")
+        obs.append(o)
+    for i in range(n_iters[0]):
+        o = c07.step(c07.rar_config(), n_iters[0], i)
+        o.name = o.name.replace("C07/", "C18/")
+        obs.append(o)
     obs.append(FnObligation("C18/lemma/invariant_and_exit", lemma, [SM + "solve"]))
     return obs
